@@ -284,12 +284,17 @@ func injectiveKey(fa *FuncAn, key ssa.Value) (bool, string) {
 }
 
 func ruleStateless(w *World, c *Check, rule string) {
+	ruleStatelessIn(w, c, rule, "crypto", "a crypto function")
+}
+
+// ruleStatelessIn: the same audit for package root (and its sub-packages).
+func ruleStatelessIn(w *World, c *Check, rule, root, what string) {
 	inCrypto := func(fn *ssa.Function) bool {
 		if fn.Pkg == nil {
 			return false
 		}
 		rp := relPkg(fn.Pkg.Pkg.Path())
-		return rp == "crypto" || strings.HasPrefix(rp, "crypto/")
+		return rp == root || strings.HasPrefix(rp, root+"/")
 	}
 	// self-test: the classifier recognises the state the module is known to keep elsewhere
 	control := false
@@ -330,7 +335,7 @@ func ruleStateless(w *World, c *Check, rule string) {
 					gname := relPkg(g.Pkg.Pkg.Path()) + "." + g.Name()
 					where := w.Pos(InstrPos(in))
 					construct := "state " + gname
-					desc := "package-level state touched by a crypto function is a memo table keyed by all of the function's parameters"
+					desc := "package-level state touched by " + what + " is a memo table keyed by all of the function's parameters"
 					var key ssa.Value
 					switch x := in.(type) {
 					case *ssa.Call:
